@@ -627,6 +627,21 @@ class Model:
                     for t in self.property_targets(fn, n, env):
                         cg[fn.qn].add(t.qn)
                         sites[t.qn].append((fn, n))
+                # implicit protocol calls on repo-typed objects
+                proto = None
+                if isinstance(n, (ast.For, ast.comprehension)):
+                    proto = (n.iter, '__iter__')
+                elif isinstance(n, ast.Subscript) and isinstance(n.ctx, ast.Load):
+                    proto = (n.value, '__getitem__')
+                elif isinstance(n, ast.Compare) and any(isinstance(o, (ast.In, ast.NotIn)) for o in n.ops):
+                    proto = (n.comparators[-1], '__contains__')
+                if proto is not None:
+                    for rt in sorted(self.expr_types(fn, proto[0], env)):
+                        for c in self.concrete(rt):
+                            m = c.lookup(proto[1])
+                            if m and not m.is_abstract:
+                                cg[fn.qn].add(m.qn)
+                                sites[m.qn].append((fn, n))
         self._cg, self._sites, self._cg_stats, self._unresolved = cg, sites, stats, unresolved
         return cg
 
